@@ -264,7 +264,10 @@ def jsonCorr (c : Case) : List String :=
          | some (_, some e), some ib => [s!"{c.id} CORR diff {what} model=[err {showDErr e}] impl=[{showHex ib}]"]
          | none, some ib => [s!"{c.id} CORR diff {what} model=[unparsable text] impl=[{showHex ib}]"])
       | _, _ => []
-    back "fromJson/min" "json_minified" c.jmin ++ back "fromJson/pretty" "json" c.jpretty ++
+    -- (big classes: the indented text is still compared and parsed, but decoded to bytes only from the minified text:
+    -- the model stores array elements one by one, like ctypes, which is quadratic in the field size)
+    back "fromJson/min" "json_minified" c.jmin ++
+    (if c.b0.length ≤ 2048 then back "fromJson/pretty" "json" c.jpretty else []) ++
     textCorr c.id "jsonMin" none jd c.jmin ++ textCorr c.id "jsonPretty" (some 2) jd c.jpretty ++
       textCorr c.id "msgJsonMin" none msg c.hjmin ++ textCorr c.id "msgJsonPretty" (some 2) msg c.hjpretty
   | _ => []
